@@ -68,6 +68,19 @@ Proof.
   destruct (lookup_level reg (map to_upper a)); [|reflexivity]. reflexivity.
 Qed.
 
+(* three or more parts: only the first is looked up, the upper bound stays MAX, and the later
+   parts - known level names or not - are never consulted (len(ss) == 2 fails in the code) *)
+Theorem parse_range_many reg s a b c : trim_space s = a ++ tilde :: b ++ tilde :: c -> ~ In tilde a -> ~ In tilde b ->
+  parse_range reg s = match lookup_level reg (map to_upper a) with Some mn => Some (mn, lvl_max) | None => None end.
+Proof.
+  intros E Ha Hb. unfold parse_range. rewrite E.
+  destruct (a ++ tilde :: b ++ tilde :: c) as [|x r] eqn:E2; [destruct a; discriminate|]. cbn [is_nil]. rewrite <- E2.
+  rewrite split_on_app_sep by assumption. rewrite split_on_app_sep by assumption.
+  pose proof (split_on_nonempty tilde c) as Hne.
+  destruct (split_on tilde c) as [|p ps]; [contradiction|].
+  destruct (lookup_level reg (map to_upper a)); reflexivity.
+Qed.
+
 (* the generated level table is well formed: distinct names, strictly increasing codes,
    NONE lowest, MAX highest, and it contains the levels the entry points use *)
 Definition table_wf_b : bool :=
